@@ -24,7 +24,7 @@ PROPERTY = "C07"
 LEVEL = "exploration"
 RULE = (
     "single-topology cases: all isobar shapes with 2-5 final states x all distinct"
-    " relabelings of final-state ids (5-body: 2 per shape in quick, all 600 in thorough) x"
+    " relabelings of final-state ids (5-body: 2 per shape in quick, 24 per shape in thorough) x"
     " swap of intermediate edge ids x cse {F,T}; adapter cases: every subset of <= 3 of the"
     " distinct three-body topologies, the permuted sets of each 3-/4-body shape (5-body"
     " thorough); events: 7-point lattice per mass configuration {generic, massless, near"
@@ -62,8 +62,9 @@ def cases(tier, seed):
         shapes = R.isobar_topologies(n)
         for si, shape in enumerate(shapes):
             limit = None
-            if n == 5 and tier == "quick":
-                limit = 2
+            if n == 5:
+                # ~60 s per five-body case (unfolding + cse of the nested boost chains)
+                limit = 2 if tier == "quick" else 24
             perms = distinct_relabelings(shape, limit)
             for perm in perms:
                 swaps = [False]
